@@ -1900,6 +1900,21 @@ class unyt_array(np.ndarray):
             unit_operator = self._ufunc_registry[ufunc]
 
             if (
+                ufunc is floor_divide
+                and u0 is not u1
+                and u0 != u1
+                and u0.dimensions == u1.dimensions
+                and not u0.base_offset
+                and not u1.base_offset
+            ):
+                # the quotient must be floored after both operands are
+                # expressed in the same unit, not before
+                conv, _ = u1.get_conversion_factor(u0, inp1.dtype)
+                new_dtype = np.dtype("f" + str(inp1.dtype.itemsize))
+                inp1 = np.asarray(inp1, dtype=new_dtype) * new_dtype.type(conv)
+                u1 = u0
+
+            if (
                 unit_operator is _preserve_units
                 and u0.dimensions is temperature
                 and u1 is not None
